@@ -940,9 +940,9 @@ def main(tier):
                 continue
             jobs.append(('case_copy_select', (shp, nf, re, std)))
             # the misfit identity is a nonlinear (NRA) query whose cost
-            # grows with the number of data: all parameter forms on the two
-            # smaller shapes, the quick tier's forms on the two-frequency one
-            if tier == 'quick' or shp != (2, 1, 2) or \
+            # grows with the number of data: all parameter forms on the
+            # one-datum shape, the quick tier's forms on the larger ones
+            if tier == 'quick' or shp == (1, 1, 1) or \
                     (nf, re, std) in QUICK_COMBOS:
                 jobs.append(('case_misfit', (shp, nf, re, std, False)))
             for op in OPS:
@@ -952,6 +952,9 @@ def main(tier):
                                          ('scalar', 'scalar')):
                     continue
                 jobs.append(('case_immutable', (shp, nf, re, std, op)))
+    # (single scenarios on the 2x2x1 survey in both tiers; a 1x1x1 survey
+    # hands out 0-d values, which the scenario harnesses do not index)
+    shapes = [(2, 2, 1)] + [x for x in shapes if x != (2, 2, 1)]
     jobs.append(('case_misfit', (shapes[0], 'scalar', 'scalar', False,
                                  True)))
     for w in ('noise_floor', 'relative_error'):
